@@ -100,7 +100,7 @@ def install(eng):
             "all(graph.dependents[a] != NoTargets for a in graph.dependents)",
             "forall(lambda u: InT(u) == (u in ValSet(graph.targets)), Target)"],
         defines=list(sc.defines),
-        entry_assume=list(sc.entry_assume[:3]) + [
+        entry_assume=list(sc.entry_assume[:4]) + [
             "forall(lambda t: implies(InT(t) and not exists(lambda b: t in deps0(b), Target), X(t)), Target)"],
         modifies=list(sc.modifies),
         ensures=[e for e in sc.ensures if "endpoints" not in e and "sched_table ==" not in e] + [
@@ -111,3 +111,86 @@ def install(eng):
             "forall(lambda u, h: Changed(h, u) == old(Changed(h, u)), Target, Hashes)",
             "sched_accepted == old(sched_accepted)"],
         raises=dict(sc.raises), uses=list(sc.uses), serves=["C05", "C01", "C02"])
+
+    # ================================================================== gwf run
+    import os
+    import contextlib
+    import gwf.plugins.run
+    LogName = T.Atom("FileName")
+    vc.FileName = LogName
+    eng.ghost("fs_removed", T.SetT(vc.Path))          # arguments of os.remove (C10, C15)
+    eng.ghost("fs_touched", T.SetT(vc.Path))          # arguments of Path(...).touch (C16)
+    eng.universe("FileName", LogName)
+    vc.f_listdir = z3.Function("listdir", vc.Path.sort(), z3.ArraySort(LogName.sort(), z3.BoolSort()))
+    vc.f_stem = z3.Function("stem", LogName.sort(), vc.Name.sort())            # splitext(basename(f))[0]
+    vc.f_logfile = z3.Function("logfile", vc.Path.sort(), vc.Name.sort(), z3.StringSort(), vc.Path.sort())
+    eng.fn("LogFile")(lambda e, st, wd, nm, ext: V(vc.Path, vc.f_logfile(wd.z, nm.z, ext.z)))
+    eng.fn("Stem")(lambda e, st, f: V(vc.Name, vc.f_stem(f.z)))
+    eng.fn("ListDir")(lambda e, st, d: V(T.SetT(LogName), vc.f_listdir(d.z)))
+
+    def r_remove(e, args, kw, st, sink, n):
+        p = e.coerce(args[0], vc.Path, n)
+        g = st.ghost["fs_removed"]
+        # the call may fail (OSError) without removing anything
+        sink.append((st, __import__("pyvc.core", fromlist=["Exc"]).Exc(OSError, exact=False)))
+        yield st.set_ghost("fs_removed", V(g.ty, z3.Store(g.z, p.z, True))), e.lift(None)
+
+    eng.rules[os.remove] = r_remove
+
+    class Suppress:
+        def enter(self, e, cm, st, s):
+            from pyvc.core import Outcome
+            yield Outcome("next", st, cm)
+
+        def exit(self, e, cm, o, s):
+            from pyvc.core import Outcome
+            if o.kind == "raise" and any(issubclass(o.val.cls, c) for c in cm.z[1]):
+                yield Outcome("next", o.st)
+            else:
+                yield o
+
+    eng.ctx_hooks["suppress"] = Suppress()
+    eng.rules[contextlib.suppress] = lambda e, args, kw, st, sink, n: iter([(st, V(T.PY, ("suppress", tuple(a.z for a in args))))])
+    eng.contract(
+        "gwf.plugins.run:clean_logs", params={"working_dir": vc.Path, "graph": G}, trusted=True,
+        modifies=["ghost:fs_removed"],
+        # C10: only logs whose base name is not a target of the workflow are removed
+        ensures=["forall(lambda p: implies(p in fs_removed and p not in old(fs_removed), "
+                 "exists(lambda f: Stem(f) not in dom(graph.targets) and (p == LogFile(working_dir, Stem(f), '.stdout') "
+                 "or p == LogFile(working_dir, Stem(f), '.stderr')), FileName)), Path)"],
+        note="TODO verify body (listdir/splitext/basename string level)")
+
+    GRAPHMODS = ["Graph.targets", "Graph.provides", "Graph.dependencies", "Graph.dependents", "Graph.unresolved",
+                 "ghost:fin", "ghost:clock"]
+    ALLMODS = GRAPHMODS + list(sc.modifies) + ["ghost:fs_removed", "ghost:disk_exists", "ghost:disk_valid",
+                                               "ghost:disk_tracked", "ghost:disk_hashes", "NameFilter.patterns"]
+    NOEFFECT = {"cond": "True", "modifies": GRAPHMODS}      # C04: nothing was submitted, deleted, touched, written
+    PERSIST = ["StatePath(the_backend) in disk_valid",
+               "dict_eq(disk_tracked[StatePath(the_backend)], the_backend._tracked_jobs)"]
+    eng.contract(
+        "gwf.plugins.run:run", params={"ctx": Ctx, "targets": LP, "dry_run": T.BOOL},
+        defines=["dry_mode"] + list(sc.defines) + ["InT", "deps0", "Reach"],
+        entry_assume=["dry_mode == dry_run", "dom(log_pos) == NoTargets", "log_n == 0"],
+        modifies=ALLMODS,
+        ensures=PERSIST + [
+            # C05: a dry run accepts nothing, removes no log and leaves the recorded ids / hashes as they were
+            "implies(dry_run, sched_accepted == old(sched_accepted) and fs_removed == old(fs_removed))",
+            "implies(dry_run and StatePath(the_backend) in old(disk_exists), "
+            "dict_eq(disk_tracked[StatePath(the_backend)], old(disk_tracked)[StatePath(the_backend)]))",
+            # C10: no log is removed when log cleaning is switched off
+            "implies(not ConfTruthy(ctx.config, 'clean_logs'), fs_removed == old(fs_removed))",
+        ] + [e for e in TABLE + NORES if "dry_mode" not in e and "acc0" not in e and "chg0" not in e and "bstat0" not in e and "trk0" not in e],
+        raises={
+            "FileProvidedByMultipleTargetsError": NOEFFECT, "UnresolvedInputError": NOEFFECT,
+            "CircularDependencyError": NOEFFECT,
+            # C09: whatever fails later, either nothing was accepted or the accepted ids are on disk
+            "BackendError": {"cond": "True", "ensures": [
+                "sched_accepted == old(sched_accepted) or (StatePath(the_backend) in disk_valid and "
+                "dict_eq(disk_tracked[StatePath(the_backend)], the_backend._tracked_jobs))"]},
+            "json.JSONDecodeError": {"cond": "True", "ensures": ["sched_accepted == old(sched_accepted)"]},
+            "OSError": {"cond": "True", "ensures": PERSIST},      # closing the scheduler connection failed
+            "Exception": {"cond": "True", "ensures": [
+                "sched_accepted == old(sched_accepted) or (StatePath(the_backend) in disk_valid and "
+                "dict_eq(disk_tracked[StatePath(the_backend)], the_backend._tracked_jobs))"]},
+        },
+        uses=list(sc.uses) + ["reach"], serves=["C04", "C05", "C09", "C10", "C02"])
